@@ -178,6 +178,9 @@ class Driver:
                 doc["config"] = {"mnemonics-full-match": mn, "operands-full-match": op}
             doc["pattern"] = pattern
             text = real.dump_rule(doc)
+            if "@" in text and not self.macros:
+                ctx.event("skipped_macro_reference_without_macro_file")     # '@any' is only a wildcard when the macro file is given
+                return False
             try:
                 import time as _t
                 _t0 = _t.time()
